@@ -84,8 +84,7 @@ func Exp(ctx *expr.Context, input system.Collection, args ...expr.Expression) (s
 	}
 	// Exp number
 	res := math.Pow(math.E, number)
-	result := system.MustParseDecimal(fmt.Sprintf("%v", res))
-	return system.Collection{result}, nil
+	return finiteDecimal(res), nil
 }
 
 // Floor returns the first integer less than or equal to the input.
@@ -123,13 +122,7 @@ func Ln(ctx *expr.Context, input system.Collection, args ...expr.Expression) (sy
 		return nil, err
 	}
 	res := math.Log(number)
-	// Validating NaN case
-	if math.IsNaN(res) {
-		return system.Collection{}, nil
-	}
-	// Type conversion to system.Decimal
-	result := decimal.NewFromFloat(res)
-	return system.Collection{system.Decimal(result)}, nil
+	return finiteDecimal(res), nil
 }
 
 // Log returns the logarithm base of the input number.
@@ -158,13 +151,7 @@ func Log(ctx *expr.Context, input system.Collection, args ...expr.Expression) (s
 	}
 	// Log number to base
 	res := logToBase(number, base)
-	// Validating NaN case
-	if math.IsNaN(res) {
-		return system.Collection{}, nil
-	}
-	// Type conversion to system.Decimal
-	result := decimal.NewFromFloat(res)
-	return system.Collection{system.Decimal(result)}, nil
+	return finiteDecimal(res), nil
 }
 
 // Power returns a number to the exponent power.
@@ -215,13 +202,16 @@ func Power(ctx *expr.Context, input system.Collection, args ...expr.Expression) 
 	}
 	// Powering number
 	res := math.Pow(number, exp)
-	// Validating NaN case
-	if math.IsNaN(res) {
-		return system.Collection{}, nil
+	return finiteDecimal(res), nil
+}
+
+// finiteDecimal is the Decimal for a floating-point result, and the empty collection for a
+// result that is not a number or not finite (it has no Decimal representation).
+func finiteDecimal(res float64) system.Collection {
+	if math.IsNaN(res) || math.IsInf(res, 0) {
+		return system.Collection{}
 	}
-	// Type conversion to system.Decimal
-	result := decimal.NewFromFloat(res)
-	return system.Collection{system.Decimal(result)}, nil
+	return system.Collection{system.Decimal(decimal.NewFromFloat(res))}
 }
 
 // Round rounds the decimal to the nearest whole number using a traditional round (i.e. 0.5 or higher will round to 1).
@@ -263,6 +253,10 @@ func Round(ctx *expr.Context, input system.Collection, args ...expr.Expression) 
 	switch value.(type) {
 	case system.Decimal:
 		res, _ := value.(system.Decimal)
+		if -decimal.Decimal(res).Exponent() <= precision {
+			// nothing to round away (and nothing to pad: a huge precision would otherwise be materialised)
+			return system.Collection{res}, nil
+		}
 		result := res.Round(precision)
 		return system.Collection{result}, nil
 	case system.Integer:
@@ -271,8 +265,7 @@ func Round(ctx *expr.Context, input system.Collection, args ...expr.Expression) 
 			return nil, err
 		}
 		res := system.MustParseDecimal(fmt.Sprintf("%d", number))
-		result := res.Round(precision)
-		return system.Collection{result}, nil
+		return system.Collection{res}, nil
 	}
 	return nil, errors.New("input is not a number")
 }
@@ -299,8 +292,7 @@ func Sqrt(ctx *expr.Context, input system.Collection, args ...expr.Expression) (
 	}
 	// Ceiling number
 	value := math.Sqrt(number)
-	result := decimal.NewFromFloat(value)
-	return system.Collection{system.Decimal(result)}, nil
+	return finiteDecimal(value), nil
 }
 
 // Truncate returns the integer portion of the input.
